@@ -488,8 +488,11 @@ func (d *describer) soleStore(al *ssa.Alloc) *ssa.Store {
 		if r == ssa.Instruction(st) {
 			continue
 		}
-		if _, ok := r.(*ssa.MakeClosure); ok {
-			return nil
+		if mc, ok := r.(*ssa.MakeClosure); ok {
+			if closureWrites(mc, al, 0) {
+				return nil
+			}
+			continue
 		}
 		if _, ok := r.(*ssa.DebugRef); ok {
 			continue
@@ -610,4 +613,40 @@ func (d *describer) soleCopy(al *ssa.Alloc) ssa.Value {
 		return src
 	}
 	return nil
+}
+
+// closureWrites: does the closure (or a closure nested in it) store into the
+// captured variable v?
+func closureWrites(mc *ssa.MakeClosure, v ssa.Value, depth int) bool {
+	fn, ok := mc.Fn.(*ssa.Function)
+	if !ok || depth > 4 {
+		return true
+	}
+	for i, b := range mc.Bindings {
+		if b != v || i >= len(fn.FreeVars) {
+			continue
+		}
+		fv := fn.FreeVars[i]
+		if fv.Referrers() == nil {
+			continue
+		}
+		for _, r := range *fv.Referrers() {
+			switch x := r.(type) {
+			case *ssa.Store:
+				if x.Addr == ssa.Value(fv) {
+					return true
+				}
+			case *ssa.MakeClosure:
+				if closureWrites(x, fv, depth+1) {
+					return true
+				}
+			case *ssa.UnOp, *ssa.DebugRef:
+			case *ssa.Call, *ssa.Defer, *ssa.Go:
+				return true // address passed on
+			default:
+				// FieldAddr/IndexAddr on the pointer value would need a load first; loads are UnOp
+			}
+		}
+	}
+	return false
 }
